@@ -104,6 +104,8 @@ func genC16(r *Rng, tier string) *World {
 			op.Input = VL(keys...)
 			if r.P(0.3) {
 				op.Collect = "map" // pass the keys as map[string]bool
+			} else if r.P(0.3) {
+				op.Collect = "mixed" // strings and maps mixed, with false entries
 			}
 			if r.P(0.3) {
 				op.ErrAt = 1 // the added test fails / the transform is a plain observer
@@ -318,6 +320,13 @@ func runC16(x *X) *Violation {
 		} else {
 			for _, k := range keys {
 				args = append(args, k)
+			}
+			if op.Collect == "mixed" && len(keys) > 0 {
+				// documented: map entries with a false value are ignored - also for a key an earlier argument named
+				args = append(args, map[string]bool{keys[0]: false})
+				if len(keys) > 1 {
+					args = append([]any{map[string]bool{keys[len(keys)-1]: true}}, args...)
+				}
 			}
 		}
 		x.R.InOp = true
